@@ -24,7 +24,8 @@ Qed.
 Theorem C02_queue_discipline : forall (c c' : chan aid) x ph sr dr,
   send_phase c x ph = Some (c', sr, dr) ->
   (q c' = q c ++ [x] /\ sr = SDone true /\ dr = []) \/
-  (exists old, q c = old :: q c' /\ ph = SDo2 /\ sr = SMore SDo3 /\ dr = dropped_action (Some old)) \/
+  (exists old, q c = old :: q c' /\ ph = SDo2 /\ sr = SMore SDo3 /\ dr = dropped_action (Some old) /\
+               pol c = DropOldest) \/
   (q c' = q c /\ (sr = SDone true -> False) /\
    (dr = [] \/ (ph = SStart /\ pol c = DropLatest /\ sr = SDone false /\ dr = dropped_action (Some x)))).
 Proof. intros c c' x ph sr dr. apply send_phase_contents. Qed.
